@@ -439,4 +439,63 @@ func c13Judge(r *Run, w *World, e *Engine, calls []*c13Call, exts []ExtCfg, fn, 
 			}
 		}
 	}
+	// ---- the barriers themselves: only accepted calls move them ------------------------------------------
+	// (a) the runtime of the first generation is started only once as many external registrations were
+	// accepted as external extensions were launched; refused registrations do not count
+	if rtp := w.Sup.Proc("runtime-1"); rtp != nil && len(exts) > 0 {
+		accepted := 0
+		refusedBefore := 0
+		for _, cc := range calls {
+			c := cc.c
+			if cc.kind != "register" || !c.Done || c.Err != nil || c.StartStep > rtp.ExecStep || cc.actor.Internal {
+				continue
+			}
+			if c.Status == 200 {
+				accepted++
+			} else {
+				refusedBefore++
+			}
+		}
+		if refusedBefore > 0 {
+			r.Probe("refused-register-before-runtime-start")
+		}
+		r.Check(accepted >= len(exts), "C13.barrier-moved", "the runtime was started at step %d after %d accepted external registrations (%d refused ones), %d external extensions were launched", rtp.ExecStep, accepted, refusedBefore, len(exts))
+	}
+	// (b) the first invocation is delivered only once every extension registered by then has an accepted
+	// next on record; refused polls (missing / invalid / unknown identifier) do not count
+	if firstDelivery < 1<<30 {
+		refusedPolls := 0
+		for _, cc := range calls {
+			if cc.kind == "next" && cc.idKind != "" && cc.c.Done && cc.c.StartStep <= firstDelivery {
+				refusedPolls++
+			}
+		}
+		for _, cc := range calls {
+			c := cc.c
+			if cc.kind != "register" || !c.Done || c.Err != nil || c.Status != 200 || c.EndStep >= firstDelivery {
+				continue
+			}
+			id := c.Hdr.Get("Lambda-Extension-Identifier")
+			polled, gone := false, false
+			for _, o := range calls {
+				if o.c.ReqHdr["Lambda-Extension-Identifier"] != id || o.c.StartStep > firstDelivery {
+					continue
+				}
+				if o.kind == "next" && o.idKind == "" && (!o.c.Done || o.c.Err != nil || o.c.Status == 200) {
+					polled = true
+				}
+				if (o.kind == "initerror" || o.kind == "exiterror") && o.c.Done && o.c.Status == 202 {
+					gone = true
+				}
+			}
+			if !cc.actor.P.Alive && cc.actor.P.DeathStep <= firstDelivery {
+				gone = true
+			}
+			if refusedPolls > 0 {
+				r.Probe("refused-poll-before-first-delivery")
+			}
+			r.Check(polled || gone, "C13.barrier-moved", "the first invocation was delivered at step %d although %s (registered at step %d) had no accepted next on record (%d refused polls before)", firstDelivery, cc.actor.Who, c.EndStep, refusedPolls)
+		}
+	}
+
 }
